@@ -307,7 +307,7 @@ def populations(date_iso, deviations, reduced):
         rows = popgen.library_rows(name, year)
         out.append((name, [rows]))
         if deviations:
-            devs = [new for _, _, _, new in popgen.deviations(rows, year, reduced=reduced)]
+            devs = [new for _, _, _, new in popgen.deviations(rows, year, reduced=reduced, max_alts=2 if reduced else None)]
             for k in range(0, len(devs), 40):
                 out.append((f"{name}+dev{k}", devs[k : k + 40]))
     return out
@@ -321,7 +321,7 @@ def run(tier):
     rep = Reporter("C03", tier)
     thorough = tier == "thorough"
     dates = [d.isoformat() for d in (popgen.d15() if thorough else popgen.quick_dates(4))]
-    dev_dates = set(dates) if thorough else {dates[2]}
+    dev_dates = set(dates[1::6]) if thorough else {dates[2]}
     tasks = []
     for d in dates:
         for label, rows_list in populations(d, d in dev_dates, reduced=not thorough):
@@ -332,7 +332,7 @@ def run(tier):
         rep.merge(part)
         for n, T in t.items():
             per_date[d].setdefault(n, set()).update(T)
-    cap = 300 if thorough else 60
+    cap = 150 if thorough else 60
     ptasks = []
     ntup = 0
     for d, store in per_date.items():
